@@ -25,6 +25,7 @@ var (
 	ErrWrongBalanceAdapter = errors.New("error in asserting to BalanceAdapter")
 	ErrDuplicateCurrency   = errors.New("provided currency has already been registered")
 	ErrMismatchingCurrency = errors.New("mismatching currencies")
+	ErrInvalidCoin         = errors.New("coin has no amount")
 
 	ErrInsufficientBalance     = errors.New("insufficient balance")
 	ErrBalanceErrorAddFailed   = codes.ProtocolError{Code: codes.BalanceErrorAddFailed, Msg: "Failed to add balance to account"}
